@@ -353,6 +353,10 @@ func runS6(run *vf.Run, s spec, dir string, res *vf.Result) *vf.Result {
 		res.HarnessErr = "supervisor log: " + lerr.Error()
 		return res
 	}
+	if code >= 200 && code <= 203 {
+		res.HarnessErr = fmt.Sprintf("supervisor failed (exit %d)", code)
+		return res
+	}
 	if !pl.Killed {
 		b, _ := os.ReadFile(filepath.Join(dir, "daemon.log"))
 		res.Evals++
@@ -434,7 +438,7 @@ func runS6(run *vf.Run, s spec, dir string, res *vf.Result) *vf.Result {
 			acked = true
 			res.Count(fmt.Sprintf("restart_ack_on_attempt_%d", try), 1)
 		} else {
-			time.Sleep(30 * time.Millisecond)
+			time.Sleep(200 * time.Millisecond)
 		}
 	}
 	res.Evals++
